@@ -110,6 +110,7 @@ type simParkRemote struct {
 	eof       bool
 	selfClose bool
 	acted     bool
+	stallCh   chan struct{} // non-nil: the remote has stopped reading (a peer that is stuck) until it is closed
 	sentNotif bool // the remote itself has sent a NOTIFICATION on it: the session is over by the remote's doing
 	q         chan []byte // writes go through one goroutine: two blocked net.Pipe writers would contend on a mutex
 }
@@ -150,6 +151,12 @@ func (r *simParkRemote) shut() {
 func (r *simParkRemote) reader() {
 	b := make([]byte, 4096)
 	for {
+		r.mu.Lock()
+		st := r.stallCh
+		r.mu.Unlock()
+		if st != nil {
+			<-st
+		}
 		n, err := r.conn.Read(b)
 		r.mu.Lock()
 		r.buf.Write(b[:n])
@@ -160,6 +167,22 @@ func (r *simParkRemote) reader() {
 		}
 		r.mu.Unlock()
 	}
+}
+
+// stall: the remote stops reading after the read it is currently blocked in; resume lets it read again.
+func (r *simParkRemote) stall() {
+	r.mu.Lock()
+	r.stallCh = make(chan struct{})
+	r.mu.Unlock()
+}
+
+func (r *simParkRemote) resume() {
+	r.mu.Lock()
+	if r.stallCh != nil {
+		close(r.stallCh)
+		r.stallCh = nil
+	}
+	r.mu.Unlock()
 }
 
 func (r *simParkRemote) closed() bool {
